@@ -7,6 +7,7 @@
 (* concatenation of the traces of many cases. Events:                      *)
 (*   case   : a fresh program value (pi = index into PROGS, mode)          *)
 (*   push   : the caller appends rows to a relation field                  *)
+(*   set    : the caller overwrites a relation field with other rows       *)
 (*   call   : run() / run_timeout(k) is invoked                            *)
 (*   ins    : (hook) a row was appended, or a lattice row increased        *)
 (*   merged, scc_start, scc_end, run_start, run_end, deadline: (hooks)     *)
@@ -63,6 +64,18 @@ Push ==
    /\ LET rows == RowsFromJ(P, Ev.rel, Ev.rows) IN
       /\ pushed' = [pushed EXCEPT ![Ev.rel] = @ \cup rows]
       /\ db' = AddFacts(P, db, { <<Ev.rel, t>> : t \in rows })
+   /\ UNCHANGED <<pi, cid, mode, lm, last, nins, bad>>
+
+(* the caller overwrites a relation field. Everything else the program value holds (earlier inputs and everything *)
+(* derived from the overwritten rows) stays: from now on it is given, exactly like pushed facts. Only used on      *)
+(* programs without negation / aggregation and without custom providers (the held database is then observable     *)
+(* and the next run must produce the least model containing it).                                                  *)
+Set ==
+   /\ IsEvent("set")
+   /\ LET rows == RowsFromJ(P, Ev.rel, Ev.rows)
+          held == [ r \in DOMAIN db |-> IF r = Ev.rel THEN rows ELSE db[r] ]
+      IN /\ pushed' = held
+         /\ db' = held
    /\ UNCHANGED <<pi, cid, mode, lm, last, nins, bad>>
 
 Call ==
@@ -161,7 +174,7 @@ Finish ==
    /\ l' = l + 1
    /\ UNCHANGED <<pi, cid, mode, pushed, db, lm, last, nins, bad>>
 
-TraceNext == Case \/ Push \/ Call \/ Ins \/ Merged \/ Other \/ Ret \/ State \/ Finish
+TraceNext == Case \/ Push \/ Set \/ Call \/ Ins \/ Merged \/ Other \/ Ret \/ State \/ Finish
 
 TraceSpec == TraceInit /\ [][TraceNext]_vars
 
